@@ -7,6 +7,8 @@ import "verif/harness"
 
 func main() {
 	harness.Main(map[string]harness.Check{
+		"C09": c09{},
 		"C10": c10{},
+		"C11": c11{},
 	})
 }
